@@ -419,6 +419,13 @@ def corpus(cfgs):
             cs.append(("corpus-page-eq-sb-" + q.name, [q.line, "a 0 %d ok" % (m + 1), "w 0 0 %d 3" % (m + 1), "g 0", "a 1 %d ok" % (3 * q.sb), "g 1",
                                                        "r 0 %d ok" % (m + 2), "g 0", "r 0 %d ok" % (2 * q.sb + 5), "c 0 0 24", "g 0", "v", "d 1 %d" % (3 * q.sb),
                                                        "f 0", "v", "a 2 %d ok" % (m + 1), "f 2", "v"]))
+    # seeded miss: num_reserved narrowed to 16 bits -- more than 65536 objects of ONE slab live at the same time (1 MiB slabs)
+    for q in cfgs:
+        per8 = q.per_slab(8)
+        if per8 > 66000:
+            cs.append(("corpus-66000-live-in-one-slab-" + q.name, [q.line, "fill 8 66000", "v", "a 0 8 ok", "drain", "v", "f 0", "v"]))
+        cs.append(("corpus-fill-drain-" + q.name, [q.line, "fill 24 %d" % min(300, 2 * q.per_slab(32) + 3), "v", "fill 100 5", "a 0 24 ok", "drain", "v", "f 0",
+                                                   "fill %d 2" % (q.maxsmall + 1), "v", "drain", "v"]))
     # seeded miss: the pool copied its policy object -- two pools on one policy object, interleaved
     for q in cfgs:
         m = q.maxsmall
@@ -440,7 +447,11 @@ def long_corpus(cfgs):
     """thorough tier only (about a minute in a -O2 build without sanitizers): 2^32 allocate/free pairs on one slab.
     D42: before the fix the counter num_reserved wrapped to 0 and a valid free stopped in FRG_ASSERT."""
     q = by_name(cfgs, "def_an")
-    return [("long-churn-d42", [q.line, "a 0 64 ok", "churn 64 4294967296", "v", "f 0", "v"])]
+    out = [("long-churn-d42", [q.line, "a 0 64 ok", "churn 64 4294967296", "v", "f 0", "v"])]
+    for q2 in cfgs:
+        if q2.per_slab(8) > 70000:     # every object of a 1 MiB slab of the 8-byte class live at once, and a second slab
+            out.append(("big-fill-" + q2.name, [q2.line, "fill 8 %d" % (q2.per_slab(8) + 10), "v", "drain", "v"]))
+    return out
 
 def exhaustive_small(cfg, depth):
     """thorough tier: all op sequences up to `depth` over two sizes of the largest class / large path on 3 slots"""
